@@ -112,6 +112,17 @@ def _worker(job):
                 for d in (0, 1, 2, 3):
                     for nm in ("equal_ranges", "contains_approx", "contains_well_inside"):
                         _call(res, nm, getattr(common, nm), r1, r2, d)
+                for d in (0, 1, 2, 3, 5, 8):
+                    # at least d shared positions, or one range inside the other
+                    _call(res, "overlaps_at_least", common.overlaps_at_least, r1, r2, d)
+                    if not (r1[1] < r2[0] or r2[1] < r1[0]):
+                        # the variant for ranges already known to overlap must agree with it there
+                        got = common.overlaps_at_least_when_overlap(r1, r2, d)
+                        s1, s2 = set(range(r1[0], r1[1] + 1)), set(range(r2[0], r2[1] + 1))
+                        exp = len(s1 & s2) >= d or s1 <= s2 or s2 <= s1
+                        C._rec("overlaps_at_least_when_overlap", got == exp, (r1, r2, d), got)
+                        if got != exp:
+                            res["viol"].append(("overlaps_at_least_when_overlap:wrong-result", repr((r1, r2, d)), "%s expected %s" % (got, exp)))
             _call(res, "interval_len", common.interval_len, r1)
     elif kind == "single":
         lists, n = payload
